@@ -318,7 +318,7 @@ extern int mpt_graph_get(const MPT_STRUCT(graph) *gr, MPT_STRUCT(property) *pr)
 		{"pos",        "origin point",        -2,  MPT_offset(graph,pos) },
 		{"scale",      "scale factor",        -2,  MPT_offset(graph,scale) },
 		
-		{"grid",       "grid type",           'y', MPT_offset(graph,grid) },
+		{"grid",       "grid type",           'c', MPT_offset(graph,grid) },
 		{"align",      "axis alignment",      'y', MPT_offset(graph,align) },
 		{"clip",       "clip data display",   'y', MPT_offset(graph,clip) },
 		
@@ -330,7 +330,7 @@ extern int mpt_graph_get(const MPT_STRUCT(graph) *gr, MPT_STRUCT(property) *pr)
 		0,
 		'f', 'f', /* position */
 		'f', 'f', /* scaling */
-		'y',      /* grid type */
+		'c',      /* grid type */
 		'y',      /* axis alignment */
 		'y',      /* frame type */
 		'y',      /* clipping */
